@@ -259,56 +259,58 @@ func c03Spaces(c *fw.Ctx) {
 			}
 		})
 
-	c.Space("via-pointer", "PackDomainName with a compression map: a base name of 150..253 wire octets is packed first, then one more label of 1..63 octets in front of it (total 245..262): the second call must succeed exactly when the expanded name is ≤ 255 octets, and what it emits must be accepted by UnpackDomainName with the right labels; non-trivial: total ≥ 250", true,
+	c.Space("via-pointer", "PackDomainName with a compression map: a base name of 150..253 wire octets (its octets plain, backslashes, dots or NULs — the last three need escapes in the text) is packed first, then one more label of 1..63 octets in front of it (total 245..262): the second call must succeed exactly when the expanded name is ≤ 255 octets, and what it emits must be accepted by UnpackDomainName with the right labels; non-trivial: total ≥ 250", true,
 		func(emit func(func(*fw.R))) {
 			for total := 245; total <= 262; total++ {
 				for front := 1; front <= 63; front++ {
-					total, front := total, front
-					emit(func(r *fw.R) {
-						baseLen := total - (front + 1) // wire length of the base name incl. root
-						if baseLen < 3 || baseLen > 255 {
-							return
-						}
-						if total >= 250 {
-							r.Nontrivial()
-						}
-						var base [][]byte
-						left := baseLen - 1
-						for left > 0 {
-							n := 64
-							if left < n {
-								n = left
-							}
-							if n == 1 { // cannot have a zero-length label: borrow one octet
+					for _, fill := range []byte{'b', '\\', '.', 0} { // octets of the base name: plain, and three kinds that need an escape in the text
+						total, front, fill := total, front, fill
+						emit(func(r *fw.R) {
+							baseLen := total - (front + 1) // wire length of the base name incl. root
+							if baseLen < 3 || baseLen > 255 {
 								return
 							}
-							base = append(base, bytes.Repeat([]byte{'b'}, n-1))
-							left -= n
-						}
-						long := append([][]byte{bytes.Repeat([]byte{'f'}, front)}, base...)
-						bs, ls := rn.Escape(base, true), rn.Escape(long, true)
-						buf := make([]byte, 1024)
-						cm := map[string]int{}
-						off, err := dns.PackDomainName(bs, buf, 0, cm, true)
-						if err != nil {
-							r.Fail("via-pointer/base-rejected", "PackDomainName(%d-octet base name) = %v", baseLen, err)
-							return
-						}
-						off2, err := dns.PackDomainName(ls, buf, off, cm, true)
-						valid := rn.WireLen(long) <= 255
-						if (err == nil) != valid {
-							r.Fail("via-pointer/limit", "PackDomainName of a name that expands to %d wire octets (label of %d in front of a compressible %d-octet name) = %v; valid = %v", total, front, baseLen, err, valid)
-							return
-						}
-						if err == nil {
-							got, _, uerr := dns.UnpackDomainName(buf[:off2], off)
-							if uerr != nil {
-								r.Fail("via-pointer/emits-name-it-rejects", "the packer emitted (with a pointer) a name of %d wire octets that UnpackDomainName rejects: %v", total, uerr)
-							} else if p := rn.Parse(got); !rn.Equal(p.Labels, long) {
-								r.Fail("via-pointer/wrong-name", "unpacked %q", clip(got))
+							if total >= 250 {
+								r.Nontrivial()
 							}
-						}
-					})
+							var base [][]byte
+							left := baseLen - 1
+							for left > 0 {
+								n := 64
+								if left < n {
+									n = left
+								}
+								if n == 1 { // cannot have a zero-length label: borrow one octet
+									return
+								}
+								base = append(base, bytes.Repeat([]byte{fill}, n-1))
+								left -= n
+							}
+							long := append([][]byte{bytes.Repeat([]byte{'f'}, front)}, base...)
+							bs, ls := rn.Escape(base, true), rn.Escape(long, true)
+							buf := make([]byte, 1024)
+							cm := map[string]int{}
+							off, err := dns.PackDomainName(bs, buf, 0, cm, true)
+							if err != nil {
+								r.Fail("via-pointer/base-rejected", "PackDomainName(%d-octet base name) = %v", baseLen, err)
+								return
+							}
+							off2, err := dns.PackDomainName(ls, buf, off, cm, true)
+							valid := rn.WireLen(long) <= 255
+							if (err == nil) != valid {
+								r.Fail("via-pointer/limit", "PackDomainName of a name that expands to %d wire octets (label of %d in front of a compressible %d-octet name) = %v; valid = %v", total, front, baseLen, err, valid)
+								return
+							}
+							if err == nil {
+								got, _, uerr := dns.UnpackDomainName(buf[:off2], off)
+								if uerr != nil {
+									r.Fail("via-pointer/emits-name-it-rejects", "the packer emitted (with a pointer) a name of %d wire octets that UnpackDomainName rejects: %v", total, uerr)
+								} else if p := rn.Parse(got); !rn.Equal(p.Labels, long) {
+									r.Fail("via-pointer/wrong-name", "unpacked %q", clip(got))
+								}
+							}
+						})
+					}
 				}
 			}
 		})
